@@ -34,6 +34,7 @@ SetCol(data, i, c) == [k \in 1..Len(data) |-> [data[k] EXCEPT ![i] = c[k]]]
 Stomp(data) == [k \in 1..Len(data) |-> AllNaN]
 
 Min(a, b) == IF a < b THEN a ELSE b
+Range(s) == {s[i] : i \in 1..Len(s)}
 Rev(s) == [i \in 1..Len(s) |-> s[Len(s) + 1 - i]]
 
 RECURSIVE JoinInts(_, _)
